@@ -36,6 +36,8 @@ def ser(e):
         return [op] + [ser(a) for a in e.args]
     if isinstance(e, bool):
         return ["constb", e]
+    if isinstance(e, str):
+        return ["str", e]
     if isinstance(e, (int, float)):
         n, d = S.frac(e)
         return ["const", str(n), str(d)]
